@@ -56,6 +56,29 @@ chk("C07", "proof",
     COMMON_NOTE + "Uniform and independent libgcrypt bytes are assumed; distribution statements are counting statements about coins -> result.",
     "Coq counting/bijection theorems + extraction-based correspondence with interposed libgcrypt randomness", "DESIGN.md §5 C07, docs/C07.md")
 
+# every other property with a check plugin: texts come from its docs/Cxx.md ("MANIFEST text" section written by the builder)
+import re, glob
+def _doc(pid):
+    try:
+        t = open(os.path.join(ROOT, "docs", "%s.md" % pid)).read()
+    except OSError:
+        return None
+    m = re.search(r'level_claimed\.text`?\s*:\s*"([^"]+)"', t, re.S)
+    n = re.search(r'level_note`?\s*:\s*"?([^"\n]+(?:\n(?![*#])[^\n]+)*)', t)
+    q = re.search(r'technique`?\s*:\s*"?([^"\n]+(?:\n(?![*#])[^\n]+)*)', t)
+    cl = lambda x: " ".join(x.group(1).replace("`", "").split()).rstrip('".') if x else ""
+    return cl(m), cl(n), cl(q)
+for f in sorted(glob.glob(os.path.join(ROOT, "checks", "C*.py"))):
+    pid = os.path.basename(f)[:-3]
+    if pid in CHECKS:
+        continue
+    d = _doc(pid)
+    if not d or not d[0]:
+        continue
+    lvl = re.search(r'^LEVEL\s*=\s*"(\w+)"', open(f).read(), re.M)
+    chk(pid, lvl.group(1) if lvl else "proof", d[0], COMMON_NOTE + (d[1] or ""), d[2] or "Coq model + theorems + extracted-model correspondence",
+        "DESIGN.md §5 %s, docs/%s.md" % (pid, pid))
+
 NOT_YET = {}
 ALL = ["C%02d" % i for i in range(1, 21)]
 for p in ALL:
